@@ -65,6 +65,16 @@ CHECKS = {
              "of all histories of <=4 (quick) / <=5 (thorough) set/add/remove/clear steps; every normal-form cardinality "
              "with bounds <=3 is saved and reloaded in XML, JSON, YAML through string, file and odml.save/load.",
         design="DESIGN.md C09"),
+    "C13": dict(
+        engine="input",
+        category="model_checking",
+        technique="deviation-bounded exhaustive enumeration of (dest, src) tree pairs against a reference merge model",
+        text="A compatible depth-2 baseline pair with matched, dest-only and src-only children on every level, deviated by "
+             "every single variation and every pair of variations (172 variations: attribute state per attribute and "
+             "location, uncertainty value pairs incl. 0, dtype/value relations, Section type clashes at each depth) x "
+             "orders of the source's children x strict on/off, merged by the real Section.merge; ref/merge.py decides "
+             "MUST-RAISE / MAY-RAISE / MUST-SUCCEED and checks every postcondition clause and all-or-nothing.",
+        design="DESIGN.md C13"),
     "C14": dict(
         engine="input",
         category="model_checking",
